@@ -3,6 +3,7 @@ package main
 import (
 	"fmt"
 	"go/token"
+	"go/types"
 
 	"golang.org/x/tools/go/ssa"
 )
@@ -151,6 +152,33 @@ func runC09(c *Ctx) {
 		for _, rl := range pl {
 			// within one iteration of the changes loop
 			c.ThroughLoop(fmt.Sprintf("overlord/state.(*State).Prune#abort-after-pending-loop#%d", i+1), rl, FlowPoint{Instr: ac})
+		}
+	}
+	if len(aus) > 0 && len(pl) == 0 {
+		// the predicate loop behind a boolean helper: if !s.pendingByAttr(chg) { chg.AbortUnreadyLanes() }
+		for _, h := range P.LocalCallees(pr) {
+			hl := LoopsOver(h, VField(fPending))
+			obj, isF := h.Object().(*types.Func)
+			if len(hl) != 1 || !isF || h.Signature.Results().Len() != 1 {
+				continue
+			}
+			c.touch(h)
+			notPending := TrueRes("!"+h.Name()+"(chg)", false, 0, ToFn(obj))
+			for i, ac := range aus {
+				c.Guarded(fmt.Sprintf("overlord/state.(*State).Prune#abort-after-pending-loop#%d", i+1), pr, ac, []Clause{{notPending}}, nil)
+			}
+			nf := 0
+			for _, lf := range ReturnLeaves(h, 0) {
+				if bv, isC := ConstBool(lf.Val); isC && !bv {
+					nf++
+					c.ThroughLoop(fmt.Sprintf("overlord/state.(*State).Prune#not-pending-only-after-all-predicates#%d", nf), hl[0], lf)
+				} else if !isC {
+					c.Undecided("overlord/state.(*State).Prune#pending-helper-verdict", lf.Pos(), "the pending helper returns a computed value")
+				}
+			}
+			if nf > 0 {
+				pl = hl
+			}
 		}
 	}
 	if len(aus) == 0 || len(pl) != 1 {
